@@ -40,6 +40,7 @@ def run(ctx):
     lib = ElemLib(repo)
     ctx.attempt(integer_coordinates_rule, ctx, lib)
     ctx.attempt(embedding_dimension_rule, ctx)
+    ctx.attempt(weighted_jacobian_rule, ctx)
 
     r1 = ctx.rule("R7.1", "every tabulated rule: points inside the reference element, weights sum to the reference measure", min_instances=16)
     r2 = ctx.rule("R7.2", "exactness degree of every tabulated rule >= the documented order", min_instances=16)
@@ -382,3 +383,42 @@ def embedding_dimension_rule(ctx):
             r.ok(f"{pts}: inDim {want}")
         else:
             r.fail(f.qualname, f"inDim:{pts}", f.file, f.lineno, "_GroupElem.inDim", f"segment {pts[0]} - {pts[1]}: inDim = {got}, the coordinates span dimension {want}: the Jacobian of the group is taken along the wrong axes (lengths of vertical or oblique segments vanish or shrink)")
+
+
+def weighted_jacobian_rule(ctx, rid="R7.11"):
+    """R7.11: the integration weight of point p of element e is |det F(e, p)| * w_p with the weight of the rule AS IT IS --
+    some rules (5-point tetrahedron, 8-point prism) carry a NEGATIVE weight, needed for their degree of exactness.
+    Get_weightedJacobian_e_pg is interpreted on stand-in Jacobians of both orientations (a mirrored element has det F < 0)
+    and a rule with one negative weight: wJ[e, p] == |J[e, p]| * w[p], sign of the weight kept."""
+    from ..xeval import Interp, XObj, Opaque, XRaise
+    from ..femchain import fe_hook_full
+
+    repo = ctx.repo
+    ge = repo.cls("EasyFEA.FEM._group_elem._GroupElem")
+    f = ge.methods["Get_weightedJacobian_e_pg"]
+    r = ctx.rule(rid, "Get_weightedJacobian_e_pg == |det F| * w with the rule's own (possibly negative) weights, for elements of either orientation", min_instances=1)
+    r.instance(fn=f.qualname)
+    J = [[Q(3, 2), Q(5, 4)], [Q(-7, 3), Q(-2)]]  # element 1 is mirrored
+    w = [Q(3, 4), Q(-2, 15)]
+
+    def jac(mt=None, absoluteValues=True):
+        return XArray((2, 2), [abs(x) if absoluteValues else x for row in J for x in row])
+
+    obj = XObj(ge, {"dim": 3, "Get_jacobian_e_pg": jac, "Get_weight_pg": lambda mt=None: XArray((2,), list(w))})
+    I = Interp(repo)
+    I.call_hook = fe_hook_full
+    try:
+        out = XArray.from_nested(I.call_function(f, [Opaque("matrixType")], self_obj=obj))
+    except XRaise as e:
+        r.fail(f.qualname, "weighted-jacobian", f.file, f.lineno, "_GroupElem.Get_weightedJacobian_e_pg", f"raises {e}")
+        return
+    bad = None
+    for e in range(2):
+        for p in range(2):
+            want = abs(J[e][p]) * w[p]
+            if bad is None and not is_zero(Poly.of(out[e, p]) - want):
+                bad = f"wJ[{e}, {p}] = {out[e, p]}, expected |{J[e][p]}| * ({w[p]}) = {want}"
+    if bad:
+        r.fail(f.qualname, "weighted-jacobian", f.file, f.lineno, "_GroupElem.Get_weightedJacobian_e_pg", f"{bad}: the sign of a negative quadrature weight is lost (or the orientation of a mirrored element enters the measure): integrals with the 5-point tetrahedron / 8-point prism rules, or on reflected meshes, are wrong")
+    else:
+        r.ok("wJ == |J| * w for both orientations, negative weight kept")
